@@ -382,6 +382,27 @@ def correspond(ctx, scale):
                                              f'({"non-finite" if not bool(torch.isfinite(v_).all()) else "different values"})', 'case': dict(name=cfg['name'], fill=str(fill))})
         if len(samples) < 4:
             samples.append(dict(config=cfg['name']))
+    # (7b) `lens=` in every integer dtype a caller may hold lengths in, with sequences LONGER than the narrow dtypes can count (uint8 beyond 256, int8
+    # beyond 128): the mask is position < length in exact integer arithmetic, whatever the dtype of `lens`
+    from vector_quantize_pytorch import VectorQuantize as _VQ
+    for lt_i, lens_dt in enumerate((torch.int64, torch.int32, torch.int16, torch.uint8, torch.int8)):
+        try:
+            n_long = 300
+            vq_l = _VQ(dim=2, codebook_size=4, decay=0.5)
+            vq_l.eval()
+            lens_v = torch.tensor([100, 37, 5])
+            x_long = torch.randn(3, n_long, 2)
+            m_long = torch.arange(n_long)[None, :] < lens_v[:, None]
+            with torch.no_grad():
+                o_m, i_m, _ = vq_l(x_long, mask=m_long)
+                o_l, i_l, _ = vq_l(x_long, lens=lens_v.to(lens_dt))
+            evaluations += 1
+            dist['lens_dtype_long_sequences'] = dist.get('lens_dtype_long_sequences', 0) + 1
+            if not (torch.equal(i_m, i_l) and torch.equal(o_m, o_l)):
+                failures.append({'key': f'vq:lens-dtype:{str(lens_dt).split(".")[-1]}', 'what': f'VectorQuantize with lens={lens_v.tolist()} as {lens_dt} on sequences of length {n_long}: '
+                                 f'{int((i_m != i_l).sum())} positions differ from the call with the equivalent boolean mask', 'case': dict(dtype=str(lens_dt))})
+        except Exception:
+            pass        # a lens dtype the library rejects loudly is not a silent leak
     # (8) the input projection under a mask against the non-finite model (Model/NonFinite.v): rows, upstream gradients and the weight gradient of
     # the Linear layer as torch computed them vs the model's forward / backward in the order the SOURCE uses (Gen/o_*_mask_proj), special values included
     pcases, pmeta = projection_cases(ctx, rng, dist, failures)
